@@ -73,7 +73,11 @@ type verifRef struct {
 // verifC10: a symbolic program of L operations over one bucket with keys
 // 'a'..'d' ('d' is never in the backing state), symbolic keys, values and scan
 // bounds, checked against a map-based reference semantics.
-func verifC10(L int, replay bool) {
+func verifC10(L int, replay bool) { verifC10Shaped(L, replay, nil) }
+
+// verifC10Shaped: as verifC10, with the operation kinds allowed at each step restricted by shape
+// (nil: all four kinds at every step).
+func verifC10Shaped(L int, replay bool, shape [][]int) {
 	const bucket = "b"
 	back := &verifBacking{bucket: bucket, keys: []byte{'a', 'b', 'c'}}
 	ref := map[byte]verifRef{}
@@ -94,7 +98,12 @@ func verifC10(L int, replay bool) {
 	var trace []verifObs
 
 	for step := 0; step < L; step++ {
-		op := vrt.Choice("op", 4)
+		op := 0
+		if shape != nil {
+			op = shape[step][vrt.Choice("op", len(shape[step]))]
+		} else {
+			op = vrt.Choice("op", 4)
+		}
 		k := byte(vrt.Int("key", 'a', 'd'))
 		switch op {
 		case 0: // Get
@@ -263,3 +272,7 @@ type verifObs struct {
 func VerifC10Quick()    { verifC10(2, true) }
 func VerifC10Thorough() { verifC10(3, true) }
 func VerifC10Three()    { verifC10(3, false) } // three operations without the re-run leg
+
+// VerifC10Scan3: two reads / deletes, then a scan (runs of adjacent delete markers in the cache, the
+// read set and the merged view), with the re-run leg
+func VerifC10Scan3() { verifC10Shaped(3, true, [][]int{{0, 2}, {0, 2}, {3}}) }
